@@ -20,7 +20,7 @@ RULE = (
     "+-1/0 table for shift_xx and the 0/-1 pattern for expect_flat_log2. Non-trivial (a) = >= 2 autosomes with different levels "
     "and a sex-chromosome or null bin; (b) every case; distinct = distinct case JSON."
 )
-QUICK = {"examples": 1600, "shards": 16, "budget_s": 300}
+QUICK = {"examples": 3200, "shards": 16, "budget_s": 300}
 THOROUGH = {"examples": 40000, "shards": 16, "budget_s": 2400}
 ASSUMPTIONS = [
     "null-coverage bins are (log2 <= -20, depth 0); ordinary bins have log2 > -10 and depth > 0, so the skip_low threshold itself is not probed",
